@@ -502,6 +502,44 @@ def synth_zone(rng):
     return data, zm
 
 
+# ------------------------------------------------------------------ last table transition near a year boundary
+BOUNDARY_SHIFTS = (-7200, -3601, -3600, -3599, -1, 0, 1, 3599, 3600, 3601, 7200)
+
+
+def boundary_zone(rng, y, shift, adj_kind):
+    """-> (TZif bytes, ZM): a composite zone (table + footer rule with daylight time) whose LAST table
+    transition lies [shift] seconds from the start of calendar year y on one of the clocks involved
+    (adj_kind: 0 = UTC, 1 = the rule's standard clock, 2 = its daylight clock, 3 = the clock in force
+    before the transition); the transition switches to the type the footer prescribes there, as in
+    real files, so the zone is continuous and the readings are judged under lz.loc / lz.sel / lz.rt.
+    The wall-clock window of that transition then straddles, touches or just misses the year
+    boundary (the case of corpus/C05/straddle.case, systematically)."""
+    while True:
+        r = synth_rule(rng, False)
+        if r.dst is not None and r.dst[0] != r.std[0] and abs(r.std[0]) < 86400 and abs(r.dst[0]) < 86400:
+            break
+    version = rng.choice([2, 3])
+    z = g16.Zone()
+    k = rng.random()
+    if k < 0.5:
+        poff = r.std[0] + rng.choice([3600, -3600, 1800, 7200])
+    elif k < 0.8:
+        poff = r.dst[0] + rng.choice([3600, -3600, 0])
+    else:
+        poff = rng.randint(-14, 14) * 3600
+    poff = max(-86399, min(86399, poff))
+    z.types = [(poff, 0, good_name(rng)), (rng.randint(-12, 12) * 3600, 0, good_name(rng)), r.std, r.dst]
+    ys = days_from_civil(y, 1, 1) * 86400
+    tl = ys + shift - (0, r.std[0], r.dst[0], poff)[adj_kind]
+    t0 = tl - rng.choice([86400 * 40, 86400 * 400, rng.randint(10**5, 10**8)])
+    z.trans = [(t0 - rng.randint(10**5, 10**7), 1), (t0, 0), (tl, z.types.index(r.type_at(tl)))]
+    z.rule = r
+    z.footer = g16.fmt_rule(r, False)
+    data, _ = g16.write_tzif(z, version, slim=rng.random() < 0.3)
+    zm = ZM(z.types[0][0], [(t, z.types[i][0]) for t, i in z.trans], rule_model(r))
+    return data, zm, tl
+
+
 # ------------------------------------------------------------------ cases
 def batch_for(nbytes, quick):
     # big zones are expensive to re-read per line: give them longer batches
@@ -538,6 +576,17 @@ def ordered_cases(tier, rng):
         years = rule_years(zm, [rng.choice([1971, 2000, 2024, 2100, 2500, 10000])])
         ins, walls = zone_points(zm, rng, 3, years, 4)
         yield from emit(data, zm, ins, walls, batch_for(len(data), quick), 1, rng)
+    # composite zones whose last table transition sits on a lattice around a year boundary
+    byears = [2024] if quick else [1970, 2000, 2023, 2024, 2038, 2100, 2400]
+    for y in byears + [rng.choice([1999, 2023, 2037, 2100, 9999])]:
+        for shift in BOUNDARY_SHIFTS:
+            for adj_kind in range(4):
+                data, zm, tl = boundary_zone(rng, y, shift, adj_kind)
+                ins, walls = zone_points(zm, rng, 1, rule_years(zm, [y - 1, y, y + 1]), 2)
+                near = lambda x: abs(x - tl) <= 3 * 86400
+                ins = [x for x in ins if near(x)] + [x for x in ins if not near(x)][::5]
+                walls = [x for x in walls if near(x)] + [x for x in walls if not near(x)][::5]
+                yield from emit(data, zm, ins, walls, batch_for(len(data), quick), 1, rng)
     # POSIX rules through the TZ-string route
     for _ in range(1000 if quick else 8000):
         ext = rng.random() < 0.4
